@@ -55,6 +55,33 @@ fn sub_json<S: Debug>(sp: &SubProblem<S>) -> J {
     J::obj().set("state", J::s(format!("{:?}", sp.state))).set("value", J::isz(sp.value)).set("depth", J::i(sp.depth)).set("ub", J::isz(sp.ub)).set("path", path_json(&sp.path))
 }
 
+/// follows feasible decisions (first one whose successor can still be completed) down to a complete assignment
+pub fn leaf_subproblem<F: Fam>(inst: &F) -> Option<SubProblem<F::S>> {
+    inst.optimum()?;
+    let mut st = inst.initial_state();
+    let mut value = inst.initial_value();
+    let mut path = vec![];
+    let mut depth = 0usize;
+    loop {
+        let layer = [st.clone()];
+        let var = match inst.next_variable(depth, &mut layer.iter()) { None => break, Some(v) => v };
+        let mut decs = vec![];
+        inst.for_each_in_domain(var, &st, &mut |d: Decision| decs.push(d));
+        let mut taken = None;
+        for d in decs {
+            let ns = inst.transition(&st, d);
+            if inst.hstar(&ns, depth + 1).is_some() { taken = Some((d, ns)); break; }
+        }
+        let (d, ns) = taken?;
+        value += inst.transition_cost(&st, &ns, d);
+        path.push(d);
+        st = ns;
+        depth += 1;
+        if depth > 64 { return None; }
+    }
+    Some(SubProblem { state: Arc::new(st), value, path, ub: value, depth })
+}
+
 pub type VizHook<S> = dyn Fn(&MonCtx<S>, &dyn Fn(&VizConfig) -> String, &CompilationInput<S>, &[Ev<S>], &J) -> u64;
 
 /// drives one instance with one diagram type; returns the number of compilations
@@ -105,6 +132,9 @@ where D: VizDD<State = F::S> + Default {
             Err(_) => { crashed = true; break; }
         }
     }
+    // a sub-problem with nothing left to decide (a complete feasible assignment): a legal input of `compile`, whose diagram is
+    // the single root node (never produced by the cut-sets above, which only hold nodes with children)
+    if !crashed && rng.chance(1, 3) { if let Some(leaf) = leaf_subproblem(inst.as_ref()) { ctx.bump("leaf_subproblems_compiled", 1); roots.push(leaf); } }
     // 2. every root x type x width x incumbent x {fresh, reused}
     let mut reused = MonDD::<D>::default();
     let gopt = inst.optimum();
@@ -122,7 +152,13 @@ where D: VizDD<State = F::S> + Default {
                 for l in incumbents.iter().copied() {
                     if rng.chance(1, 3) { continue; }
                     for reuse in [false, true] {
-                        let input = CompilationInput { comp_type: ct, problem: inst.as_ref(), relaxation: &relax, ranking: &rank, cutoff: &never,
+                        // one compilation in six runs under a cutoff that fires at a pseudo-random poll: either it is reported
+                        // (Err: nothing to check) or the compilation claims to be complete (Ok) and every clause applies to it -
+                        // a diagram silently truncated by the cutoff would show up as a wrong bound / a false exactness claim
+                        let cutk = if rng.chance(1, 6) { 1 + rng.below((4 * inst.nvars() as u64).max(6)) } else { 0 };
+                        let cut = CountingCutoff::new(cutk, Arc::new(AtomicBool::new(false)));
+                        if cutk > 0 { ctx.bump("compilations_under_a_counting_cutoff", 1); }
+                        let input = CompilationInput { comp_type: ct, problem: inst.as_ref(), relaxation: &relax, ranking: &rank, cutoff: if cutk > 0 { &cut } else { &never },
                             max_width: w, residual: r, best_lb: l, cache: &cache, dominance: &dom };
                         let mut fresh = MonDD::<D>::default();
                         if reuse && rng.chance(1, 3) {
@@ -148,6 +184,7 @@ where D: VizDD<State = F::S> + Default {
                         match res {
                             Err(_) => { crashed = true; break 'outer; }
                             Ok(ok) => {
+                                if ok && cutk > 0 { ctx.bump("compilations_completed_under_a_counting_cutoff", 1); }
                                 if ok {
                                     // medium / large instances: hundreds of compilations of big diagrams, each rendered under 16 configurations: the first 40 are enough
                                     if viz.is_some() && inst.nvars() >= 12 { viz_calls += 1; }
